@@ -5,9 +5,9 @@ here = os.path.dirname(os.path.dirname(os.path.abspath(__file__)))
 A = 'clang++-14 IR of the real sources -> C (lib/irc.py) -> cbmc 6.11 bounded model checking (SAT), witness twin per harness, native replay of counterexamples'
 B = 'clang++-14 IR of the real sources -> symbolic execution in python (lib/irz.py) -> z3 over a sound term-level abstraction of binary64 (IEEE-UF) / exact integers; candidates replayed natively'
 CHECKS = {
- 'C03': dict(engine='A', technique='bounded model checking (cbmc/SAT) of the real direction tables and sub-grid wiring code lowered through LLVM IR',
-   text='Solver verdict over ALL 27 classifications x all binary64 direction triples x all 64 masks for the direction tables (no bound needed: loop-free), against an independent arithmetic reference; further harnesses cover wiring for layouts <= 3 per axis. Bounded model checking is the right level: the content is finite tables and index arithmetic where the rare input (one wrong entry out of 27) is exactly what sampling misses.',
-   note='Trusted: clang-14 lowering (-O1), the IR->C translator (validated every run against the g++ build of the same wrappers on 900 vectors), cbmc. Outside: numeric equality of estimators between split and unsplit grids; layouts > 3 per axis.', ref='DESIGN.md section 5 C03'),
+ 'C03': dict(engine='A+B', technique='bounded model checking (cbmc/SAT) of the real direction tables and sub-grid wiring code lowered through LLVM IR',
+   text='Solver verdict over ALL 27 classifications x all binary64 direction triples x all 64 masks for the direction tables (no bound needed: loop-free), against an independent arithmetic reference; hand-over bookkeeping on entry for every classification with symbolic geometry (z3, term level); neighbour wiring of the real create_subgrid against a geometric reference incl. periodic axes with 1-2 sub-grids (cbmc, symbolic sub-grid/direction/periodicity). Bounded model checking is the right level: the content is finite tables and index arithmetic where the rare input (one wrong entry out of 27) is exactly what sampling misses.',
+   note='Trusted: clang-14 lowering (-O1), the IR->C translator (validated every run against the g++ build of the same wrappers on 900 vectors), cbmc. Outside: numeric equality of estimators between split and unsplit grids; copies (create_copies/update_original_counters); layouts beyond those listed.', ref='DESIGN.md section 5 C03'),
 
  'C14': dict(engine='A', technique='bounded model checking (cbmc/SAT) of the real RestartManager::get_restart_writer text against a modelled file system: inductive step over arbitrary history length, crash point symbolic',
    text='One inductive step of the dump rotation from the state after d dumps (representation invariant, d-generic) for every max_backups in 0..8, with a crash injected at every file-system operation; solver verdict over all (max_backups, d, crash point). Covers histories of any length by induction; counterexamples are replayed on the real RestartManager with real rename(2) in a temp dir.',
